@@ -519,7 +519,7 @@ def _replay_scans_run(name, ul, np):
                 out = ul.linear_grid_scan("D", "M", scan, level=0.3, return_results=True, kwA=1)
             finally:
                 ul.np = np
-            if len(rec) != 6:
+            if len(rec) not in (0, 6):
                 bad["interp-calls"] = len(rec)
             for k, (x, xp, fp) in enumerate(rec):
                 want_xp = [curves[k](m) for m in scan[::-1]]
@@ -530,12 +530,30 @@ def _replay_scans_run(name, ul, np):
                     bad["hypotest-args"] = repr((poi, d, m, kw))
             if [float(c[0]) for c in calls] != [float(m) for m in out[2][0]] or len(out[2][1]) != 4:
                 bad["results"] = "results do not correspond to the scan points"
+            # the statement itself, independent of how the interpolation is implemented: on non-uniform grids every limit lies in
+            # the cell where its curve crosses the level, at the point where the chord through the cell ends equals the level
+            for gname, grid in (("coarse-then-fine", [0.2, 1.5, 1.7, 1.9, 2.1, 2.3, 4.0]), ("fine-then-coarse", [0.1, 0.2, 0.4, 0.8, 1.6, 3.2, 6.4]),
+                                ("uniform", list(np.linspace(0.25, 6.25, 7)))):
+                g = np.asarray(grid)
+                res = ul.linear_grid_scan("D", "M", g, level=0.3, kwA=1)
+                lims = [float(res[0])] + [float(x) for x in res[1]]
+                for k, lim in enumerate(lims):
+                    c = [curves[k](m) for m in g]
+                    j = next((i for i in range(len(g) - 1) if c[i] >= 0.3 >= c[i + 1]), None)
+                    if j is None:
+                        continue
+                    want = g[j] + (c[j] - 0.3) / (c[j] - c[j + 1]) * (g[j + 1] - g[j])
+                    if not (g[j] - 1e-12 <= lim <= g[j + 1] + 1e-12) or abs(lim - want) > 1e-9:
+                        bad[f"{gname}:curve{k}"] = {"limit": lim, "crossing cell": [float(g[j]), float(g[j + 1])], "chord crossing": float(want)}
         else:
             rec = []
             saved_t = ul.toms748
 
             def spy_toms(f, a, b, args=(), k=1, xtol=None, rtol=None):
                 rec.append((f, a, b, args, k, xtol, rtol))
+                # a root finder evaluates its objective at points that are not in ascending order
+                for m in (0.75 * b + 0.25 * a, 0.5 * (a + b), 0.9 * b + 0.1 * a, 0.6 * a + 0.4 * b):
+                    f(m, *args)
                 return 0.5 * (a + b)
             ul.toms748 = spy_toms
             import signal
@@ -569,8 +587,10 @@ def _replay_scans_run(name, ul, np):
                 if (d, m) != ("D", "M") or kw != {"return_expected_set": True, "kwA": 1}:
                     bad["hypotest-args"] = repr((poi, d, m, kw))
             keys, vals = out[2]
+            if len(list(keys)) != len(list(vals)):
+                bad["cache-length"] = (len(list(keys)), len(list(vals)))
             for kx, v in zip(keys, vals):
-                if abs(float(v[0]) - curves[0](kx)) > 1e-12:
+                if abs(float(v[0]) - curves[0](kx)) > 1e-12 or any(abs(float(e) - curves[q + 1](kx)) > 1e-12 for q, e in enumerate(v[1])):
                     bad["cache"] = "returned results are not the hypotest of their key"
     finally:
         ul.hypotest = saved_h
